@@ -1,7 +1,7 @@
 #!/bin/bash
 # usage: tools/try_mutant.sh <dir-with-patch.diff> <ID> [tier]
 # applies the patch to /repo, runs the check, reverts. Prints the verdict.
-d="$1"; id="$2"; tier="${3:-quick}"
+d="$(realpath "$1")"; id="$2"; tier="${3:-quick}"
 cd /repo || exit 2
 if [ -n "$(git status --porcelain)" ]; then echo "/repo not clean"; exit 2; fi
 git apply "$d/patch.diff" || { echo "PATCH DOES NOT APPLY"; exit 2; }
